@@ -48,7 +48,7 @@ def rigid_spec(draw, identity_ok=True):
 
 @st.composite
 def grid_spec(draw, dims=(1, 2, 3), kinds=None, max_n=4, max_n3=3, perturb=True, max_amp=0.2, rigid=True,
-              affine=True, gmsh=False, poly=True):
+              affine=True, gmsh=False, poly=True, scales=False):
     dim = draw(st.sampled_from(list(dims)))
     allowed = {1: ["cart", "tensor"], 2: ["cart", "tensor", "tri"] + (["poly"] if poly else []),
                3: ["cart", "tensor", "tet"] + (["polyx", "polyx"] if poly else [])}[dim]
@@ -106,6 +106,9 @@ def grid_spec(draw, dims=(1, 2, 3), kinds=None, max_n=4, max_n3=3, perturb=True,
         # A = I + N with |N_ij| <= 0.3 -> det > 0, moderate conditioning; hex faces stay planar
         s["affine"] = [[(1.0 if i == j else 0.0) + draw(_f(-0.3, 0.3)) for j in range(3)] for i in range(3)]
     s["rigid"] = draw(rigid_spec()) if rigid else None
+    # global length scale (units): applied to the node coordinates before the rigid motion
+    if scales and draw(st.integers(0, 2)) == 0:
+        s["scale"] = draw(st.sampled_from([1e-4, 1e-3, 1e-2, 1e2, 1e3]))
     return s
 
 
@@ -261,6 +264,8 @@ def build_grid(spec, compute_geometry=True):
     if spec.get("affine"):
         A = np.array(spec["affine"], dtype=float)
         g.nodes = A @ g.nodes
+    if spec.get("scale"):
+        g.nodes = g.nodes * float(spec["scale"])
     R, t = rigid_of(spec)
     if spec.get("rigid"):
         g.nodes = R @ g.nodes + t[:, None]
@@ -300,7 +305,11 @@ def grid_meta(spec):
         meas = float(np.prod(spec["phys"]))
     if spec.get("affine"):
         meas *= abs(float(np.linalg.det(np.array(spec["affine"]))))
+    if spec.get("scale"):
+        meas *= float(spec["scale"]) ** dim
     labels = [f"dim{dim}", f"kind-{kind}"]
+    if spec.get("scale"):
+        labels.append("scaled-small" if spec["scale"] < 1 else "scaled-large")
     if spec.get("pamp", 0) > 0:
         labels.append("perturbed")
     if spec.get("affine"):
